@@ -82,7 +82,10 @@ def strategy(tier):
              "verbosity": draw(st.sampled_from([0, 0, 0, 1, 2, 3, 4])),
              # variables as plain Signals, as basic slices of one design Signal (array kinds only) or as Signals with a
              # pre-allocated sensitivity buffer (cleared in place by reset())
-             "var_form": draw(st.sampled_from(["signals", "signals", "slices", "prealloc"])),
+             "var_form": draw(st.sampled_from(["signals", "signals", "slices", "prealloc", "fancy"])),
+             # a bound that is exactly zero (densities in [0, 1], or variables in [-w, 0]); with start=on_bound some
+             # variables then start exactly at 0.0 (not for the reciprocal objective, which needs x > 0)
+             "zero_bound": draw(st.sampled_from(["none", "none", "xmin0", "xmin0", "xmax0"])),
              "payload_seed": draw(st.integers(0, 2 ** 31 - 1))}
         c.update(par)
         return c
@@ -196,8 +199,14 @@ def build_problem(case):
         vals = base + spread * rng.uniform(0, 1, n)
         return vals.copy(), vals.copy()
 
+    hi0 = lo0 + 0.4 * width0 + width0 * 0.5
+    zb = case.get("zero_bound", "none")
+    if zb == "xmin0" and not recip:
+        lo0, hi0 = 0.0, hi0 - lo0
+    elif zb == "xmax0" and not recip:
+        lo0, hi0 = lo0 - hi0, 0.0
     xmin_arg, xmin = addform(case["xmin_form"], lo0, 0.4 * width0)
-    xmax_arg, xmax = addform(case["xmax_form"], lo0 + 0.4 * width0 + width0 * 0.5, 0.8 * width0)
+    xmax_arg, xmax = addform(case["xmax_form"], hi0, 0.8 * width0)
     dx = xmax - xmin
     assert np.all(dx > 0)
     move_arg, move = _expand(case["move_form"], case["move"], sizes, rng, 0.6, 1.0)
@@ -493,10 +502,19 @@ def run_mma(case, prob, rec):
     import pymoto.common.mma as mmamod
     cum = prob["cum"]
     form = case.get("var_form", "signals")
-    if form == "slices" and any(sg["kind"] != "arr" for sg in case["sigs"]):
+    if form in ("slices", "fancy") and any(sg["kind"] != "arr" for sg in case["sigs"]):
         form = "signals"
     rec["var_form"] = form
-    if form == "slices":
+    if form == "fancy":
+        # variables selected from a larger field by index arrays (their state getter returns copies)
+        rngf = np.random.default_rng([case["payload_seed"], 5])
+        ntot = prob["n"] + 3
+        perm = rngf.permutation(ntot)
+        field = np.array(rngf.uniform(0.2, 0.8, ntot))
+        field[perm[:prob["n"]]] = prob["x0"]
+        base = pym.Signal("field", state=field)
+        variables = [base[perm[int(cum[i]):int(cum[i + 1])]] for i in range(len(case["sigs"]))]
+    elif form == "slices":
         base = pym.Signal("xall", state=np.array(prob["x0"], dtype=float))
         variables = [base[int(cum[i]):int(cum[i + 1])] for i in range(len(case["sigs"]))]
     else:
@@ -619,6 +637,10 @@ def check_case(case, _debug=None):
         bad(f"raises:{where}:{type(e).__name__}", traceback.format_exc()[-900:])
     cbs, calls = rec["cb"], rec["calls"]
     labels.append("variables:" + rec.get("var_form", "signals"))
+    if np.any(prob["x0"] == 0.0):
+        labels.append("start_exactly_zero")
+    if np.any(xmin == 0.0) or np.any(xmax == 0.0):
+        labels.append("bound_exactly_zero")
     niter = len(calls)
     labels.append("iters>=3" if niter >= 3 else "iters<3")
     if len(cbs) == 0:
